@@ -13,6 +13,7 @@ pub mod chmux_life;
 pub mod chmux_misc;
 pub mod chmux_peer;
 pub mod robs;
+pub mod rtc;
 pub mod rwlock;
 pub mod typed;
 
@@ -210,21 +211,34 @@ use remoc::rch::base;
 
 /// A full remoc connection (chmux + initial base channel in both directions) between endpoints A (label 1) and
 /// B (label 2) over the harness transport; frames are delivered by a seeded background pump.
-pub struct RemConn<TA, TB> {
-    pub a_tx: base::Sender<TA>,
-    pub a_rx: base::Receiver<TB>,
-    pub b_tx: base::Sender<TB>,
-    pub b_rx: base::Receiver<TA>,
+pub struct RemConnX<AS, AR, BS, BR> {
+    pub a_tx: base::Sender<AS>,
+    pub a_rx: base::Receiver<AR>,
+    pub b_tx: base::Sender<BS>,
+    pub b_rx: base::Receiver<BR>,
     pub ab: Link,
     pub ba: Link,
     pub conn: [JoinHandle<MuxResult>; 2],
     pub pump: JoinHandle<()>,
 }
+pub type RemConn<TA, TB> = RemConnX<TA, TB, TB, TA>;
 
 pub async fn rem_connect<TA, TB>(a: &EpCfg, b: &EpCfg, seed: u64, label_base: u64) -> RemConn<TA, TB>
 where
     TA: remoc::RemoteSend,
     TB: remoc::RemoteSend,
+{
+    rem_connect_x::<TA, TB, TB, TA>(a, b, seed, label_base).await
+}
+
+/// Connection whose two ends may disagree about the item types (version skew): A sends `AS` and receives `AR`,
+/// B sends `BS` and receives `BR`.
+pub async fn rem_connect_x<AS, AR, BS, BR>(a: &EpCfg, b: &EpCfg, seed: u64, label_base: u64) -> RemConnX<AS, AR, BS, BR>
+where
+    AS: remoc::RemoteSend,
+    AR: remoc::RemoteSend,
+    BS: remoc::RemoteSend,
+    BR: remoc::RemoteSend,
 {
     let (ab, ba) = link_pair();
     let quiet = std::env::var_os("VERIF_WIRE").is_none();
@@ -233,17 +247,17 @@ where
     let (a_sink, b_stream) = ab.halves();
     let (b_sink, a_stream) = ba.halves();
     let pump = spawn_pump(vec![ab.clone(), ba.clone()], seed);
-    let fa = Labeled::new(label_base + 1, remoc::Connect::framed::<_, _, TA, TB, remoc::codec::Default>(a.to_cfg(), a_sink, a_stream));
-    let fb = Labeled::new(label_base + 2, remoc::Connect::framed::<_, _, TB, TA, remoc::codec::Default>(b.to_cfg(), b_sink, b_stream));
+    let fa = Labeled::new(label_base + 1, remoc::Connect::framed::<_, _, AS, AR, remoc::codec::Default>(a.to_cfg(), a_sink, a_stream));
+    let fb = Labeled::new(label_base + 2, remoc::Connect::framed::<_, _, BS, BR, remoc::codec::Default>(b.to_cfg(), b_sink, b_stream));
     let (ra, rb) = tokio::join!(fa, fb);
     let (ca, a_tx, a_rx) = ra.ok().expect("connect A");
     let (cb, b_tx, b_rx) = rb.ok().expect("connect B");
     let ha = tokio::spawn(remoc::verif::Deferred::new(Labeled::new(label_base + 1, ca)));
     let hb = tokio::spawn(remoc::verif::Deferred::new(Labeled::new(label_base + 2, cb)));
-    RemConn { a_tx, a_rx, b_tx, b_rx, ab, ba, conn: [ha, hb], pump }
+    RemConnX { a_tx, a_rx, b_tx, b_rx, ab, ba, conn: [ha, hb], pump }
 }
 
-impl<TA, TB> RemConn<TA, TB> {
+impl<AS, AR, BS, BR> RemConnX<AS, AR, BS, BR> {
     pub fn links(&self) -> Vec<Link> {
         vec![self.ab.clone(), self.ba.clone()]
     }
